@@ -41,6 +41,7 @@ contract(B + 'calculate_likelihood_and_derivatives', ['C15', 'C02', 'C04'],
              'gradient': f"same(result.data.gradient, ite(scaled, app('numpy.asarray', {G}) / {NSS}, app('numpy.asarray', {G})))",
              'hessian': f"same(result.data.hessian, ite(scaled, app('numpy.asarray', {H}) / {NSS}, app('numpy.asarray', {H})))",
              'bhhh': f"same(result.data.bhhh, ite(scaled, app('numpy.asarray', {BH}) / {NSS}, app('numpy.asarray', {BH})))",
+             'panel_map_is_the_map_of_the_data': contracts.c02_outputs.PANEL_CLAUSE,
              'marker_follows_best': f"implies({SAVES}, self.bestIteration == {F})",
              'marker_kept_otherwise': f"implies(not ({SAVES}), same(self.bestIteration, old(self.bestIteration)))",
              'file_installed_iff_best': f"iterfile_installs() == ite({SAVES}, 1, 0)",
